@@ -1,2 +1,6 @@
 import ChiaModel.Props.C09
-#print axioms ChiaModel.C02.accepted_invariants
+#print axioms ChiaModel.C09.additions_removals_spec
+#print axioms ChiaModel.C09.removals_spec
+#print axioms ChiaModel.C09.additions_spec
+#print axioms ChiaModel.C09.lookup_spec
+#print axioms ChiaModel.C02.native_invariants
